@@ -274,6 +274,45 @@ def lint_confirms(globs, path: str) -> bool:
     raise HarnessError(f"file {path!r} not in lint output for globs {globs}: {out.stdout[:300]}")
 
 
+def _real(w: str) -> bool:
+    s = 0
+    for ch in w:
+        s = RealPath.step(s, ch)
+        if s == 4:
+            return False
+    return s == 3
+
+
+def bounded_fallback(case, item, sigma, N, W, diverged) -> R:
+    globs = case["globs"]
+    r = R()
+    r.notes.append("bounded-fallback(matches() is not the compiled regex)")
+    r.tags.append("fallback")
+    r.validated = 0
+    for w in _words(sigma, 5):
+        if not _real(w):
+            continue
+        r.validated += 1
+        got = item.matches(w)
+        if got and not W.accepts(w):
+            direction = "overmatched"
+        elif not got and N.accepts(w):
+            direction = "missed"
+        else:
+            continue
+        on_disk = lint_confirms(globs, w)
+        if on_disk != got:
+            raise HarnessError(f"fallback: lint disagrees with matches() on {globs} {w!r}")
+        nl = "+newline" if "\n" in w else ""
+        want = "must match (narrowest reading)" if direction == "missed" else "must not match (widest reading)"
+        r.violation(f"{direction}{nl}:matches()-differs-from-its-regex",
+                    f"glob {globs!r}: path {w!r} {want}, but matches() and lint say {got} (the compiled regex alone disagrees with matches() on {diverged!r})",
+                    witness=w)
+        break
+    r.outcome = "fallback-viol" if r.viol else "fallback-ok"
+    return r
+
+
 def evaluate(case) -> R:
     if "plumb" in case:
         return evaluate_plumb(case)
@@ -288,10 +327,17 @@ def evaluate(case) -> R:
     # bind the model to the code: replay every short path on the real matches()
     depth = 5 if case.get("deep") else 3
     n = 0
+    diverged = None
     for w in _words(sigma, depth):
         n += 1
         if impl.accepts(w) != item.matches(w):
-            raise HarnessError(f"automaton/implementation divergence on glob {globs} path {w!r}")
+            diverged = w
+            break
+    if diverged is not None:
+        # matches() is not (only) the compiled regex: the automaton is not a
+        # model of the code.  Fall back to bounded exhaustive enumeration of
+        # realistic paths directly on the real matches() (claim becomes bounded).
+        return bounded_fallback(case, item, sigma, N, W, diverged)
     r.validated = n
     r.evals = 1
     r.nontrivial = any("*" in g or "\\" in g for g in globs)
